@@ -110,16 +110,26 @@ def clause_a(repo, chk):
     if kb != {"bg_value"} or ke != {"eff_value"}:
         chk.violation("A-keys", fb.key if kb != {"bg_value"} else fe.key, "cfit-accessor", "cfit accessors read %s / %s instead of bg_value / eff_value written by the loader" % (sorted(kb), sorted(ke)), file="tf_pwa/model/cfit.py", line=fb.lineno)
     # registration names of the accessors match the names Model_cfit asks for
+    def _const(e):
+        """string literal, possibly through a module-level named constant"""
+        if isinstance(e, ast.Constant):
+            return e.value
+        if isinstance(e, ast.Name) and e.id in cf.toplevel_assign and isinstance(cf.toplevel_assign[e.id], ast.Constant):
+            return cf.toplevel_assign[e.id].value
+        return None
+
     reg = {}
     for f in (fb, fe):
         for d in f.node.decorator_list:
-            if isinstance(d, ast.Call) and d.args and isinstance(d.args[0], ast.Constant):
-                reg[d.args[0].value] = f.name
+            if isinstance(d, ast.Call) and d.args and _const(d.args[0]) is not None:
+                reg[_const(d.args[0])] = f.name
     init = repo.fn("tf_pwa/model/cfit.py::Model_cfit.__init__")
     asked = {}
     for n in walk_local(init.node):
-        if isinstance(n, ast.Assign) and isinstance(n.value, ast.Call) and norm_text(n.value.func) == "get_function" and n.value.args and isinstance(n.value.args[0], ast.Constant):
-            asked[norm_text(n.targets[0])] = n.value.args[0].value
+        if isinstance(n, ast.Assign) and isinstance(n.value, ast.Call) and norm_text(n.value.func) == "get_function" and n.value.args and _const(n.value.args[0]) is not None:
+            asked[norm_text(n.targets[0])] = _const(n.value.args[0])
+    if not reg or not asked:
+        raise AnalysisError("cfit default accessors: registration names / requested names not recognisable (registered %s, asked %s)" % (reg, asked))
     ok = asked.get("bg_f") in reg and reg.get(asked.get("bg_f")) == "f_bg" and reg.get(asked.get("eff_f")) == "f_eff"
     chk.instance("A-keys", "Model_cfit defaults: bg_f<-%s, eff_f<-%s; registered: %s" % (asked.get("bg_f"), asked.get("eff_f"), reg))
     if not ok:
@@ -175,21 +185,17 @@ def clause_b(repo, chk):
                 "the simultaneous-fit aggregate must return, for each of its %d component(s), the sum over all parts of the parts' `%s`; on three abstract parts it returns %s" % (ncomp, mname, [str(c) for c in comps]),
                 file="tf_pwa/model/model.py", line=fn.lineno,
             )
-    # value-returning entry points add the constraint term (shared with C07)
-    from .c07 import add_terms, calls_constraint, expand, single_defs
+    # value-returning entry points add the constraint term (shared with C07: interpretation on a component model)
+    from .c07 import entry_points_by_interpretation
 
-    for cname in ("FCN", "CombineFCN"):
-        c = repo.cls("tf_pwa/model/model.py::%s" % cname)
-        for mname in ("__call__", "nll_grad", "nll_grad_hessian"):
-            fn = c.methods[mname]
-            defs = single_defs(fn.node)
-            r = [n for n in walk_local(fn.node) if isinstance(n, ast.Return)][-1]
-            comp = r.value.elts[0] if isinstance(r.value, ast.Tuple) else r.value
-            terms = add_terms(expand(comp, defs))
-            ok = any(calls_constraint(t, "term") for t in terms) and len(terms) >= 2
-            chk.instance("B-agg", "%s.%s value = likelihood part + get_constrain_term(): %s" % (cname, mname, ok))
-            if not ok:
-                chk.violation("B-agg", fn.key, "value:term", "the reported NLL value does not add the Gaussian-constraint term", file="tf_pwa/model/model.py", line=r.lineno)
+    res = entry_points_by_interpretation(repo)
+    for (cname, mname), (arity_ok, oks, comps, ws, fn2) in sorted(res.items()):
+        if mname not in ("__call__", "nll_grad", "nll_grad_hessian"):
+            continue
+        ok = bool(oks) and oks[0]
+        chk.instance("B-agg", "%s.%s value = likelihood part + get_constrain_term(): %s" % (cname, mname, ok))
+        if not ok:
+            chk.violation("B-agg", fn2.key, "value:term", "the reported NLL value is `%s`, not likelihood part + Gaussian-constraint term" % (comps[0] if comps else None), file="tf_pwa/model/model.py", line=fn2.lineno)
     chk.require_count("B-agg", 11)
 
 
@@ -230,9 +236,14 @@ def clause_c(repo, chk):
         order_ok = merge == ["data", "bg"] and concat == ["weight", "bg_weight"]
         # alpha
         alpha_ok = False
+        from .c07 import expand as _expand, single_defs as _single_defs
+
+        _defs = {k: v for k, v in _single_defs(fn.node).items() if k not in ("alpha", "weight", "sw")}
         for x in walk_local(fn.node):
-            if isinstance(x, ast.Assign) and isinstance(x.targets[0], ast.Name) and x.targets[0].id == "alpha" and isinstance(x.value, ast.BinOp) and isinstance(x.value.op, ast.Div):
-                alpha_ok = _is_alpha(x.value)
+            if isinstance(x, ast.Assign) and isinstance(x.targets[0], ast.Name) and x.targets[0].id == "alpha":
+                val = _expand(x.value, _defs)  # temporaries for numerator / denominator are looked through
+                if isinstance(val, ast.BinOp) and isinstance(val.op, ast.Div):
+                    alpha_ok = _is_alpha(val)
         ok = neg and not pos_use and order_ok and alpha_ok
         chk.instance("C-blend", "%s: -w_bkg:%s merge=%s concat=%s alpha=sum w/sum w^2:%s" % (key, neg and not pos_use, merge, concat, alpha_ok))
         if not (neg and not pos_use):
@@ -246,9 +257,14 @@ def clause_c(repo, chk):
         fn = repo.fn(key)
         found = False
         for x in walk_local(fn.node):
-            if isinstance(x, ast.Assign) and norm_text(x.targets[0]) == target and isinstance(x.value, ast.BinOp):
+            if isinstance(x, ast.Assign) and norm_text(x.targets[0]) == target:
+                from .c07 import expand as _expand, single_defs as _single_defs
+
+                val = _expand(x.value, {k: v for k, v in _single_defs(fn.node).items() if k not in ("alpha", "self.alpha", "weight", "sw")})
+                if not isinstance(val, ast.BinOp):
+                    continue
                 found = True
-                ok = _is_alpha(x.value)
+                ok = _is_alpha(val)
                 n += 1
                 chk.instance("C-blend", "%s: %s = %s -> %s" % (key, target, norm_text(x.value), ok))
                 if not ok:
@@ -355,10 +371,14 @@ def clause_e(repo, chk):
                     integ[first.id] = norm_text(st.value.args[0])
         vmap = {}
         for st in walk_local(f.node):
+            pairs = []
             if isinstance(st, ast.Assign) and isinstance(st.targets[0], ast.Tuple) and isinstance(st.value, ast.Tuple):
-                for t, v in zip(st.targets[0].elts, st.value.elts):
-                    if isinstance(t, ast.Name) and isinstance(v, ast.Call) and v.args and isinstance(v.args[0], ast.Name) and v.args[0].id in integ:
-                        vmap[t.id] = v.args[0].id
+                pairs = list(zip(st.targets[0].elts, st.value.elts))
+            elif isinstance(st, ast.Assign) and len(st.targets) == 1 and isinstance(st.targets[0], ast.Name):
+                pairs = [(st.targets[0], st.value)]
+            for t, v in pairs:
+                if isinstance(t, ast.Name) and isinstance(v, ast.Call) and v.args and isinstance(v.args[0], ast.Name) and v.args[0].id in integ:
+                    vmap[t.id] = v.args[0].id
         prob = m.funcs.get(f.qual + ".prob")
         if prob is None or not integ or not vmap:
             continue
@@ -419,9 +439,21 @@ def clause_f(repo, chk):
         raise AnalysisError("get_fcn: branch that builds the FCN with / without bg not found")
     st, body_has_bg = sel
     t = st.test
+    # a boolean local that holds the predicate (hoisted out of the loop) is looked through; `not X` flips the branch
+    from .c07 import single_defs as _sd
+
+    defs_ = _sd(gf.node)
+    for _ in range(3):
+        if isinstance(t, ast.UnaryOp) and isinstance(t.op, ast.Not):
+            t, body_has_bg = t.operand, not body_has_bg
+        elif isinstance(t, ast.Name) and t.id in defs_:
+            t = defs_[t.id]
+        else:
+            break
     txt = norm_text(t)
     ok = False
     why = txt
+    recognised = True
     if "'cfit'" in txt and ".get('model'" in txt and isinstance(t, ast.Compare) and isinstance(t.ops[0], (ast.Eq, ast.NotEq)):
         ok = (isinstance(t.ops[0], ast.Eq)) != body_has_bg
     elif isinstance(t, ast.Call) and isinstance(t.func, ast.Name) and t.func.id == "isinstance" and len(t.args) == 2:
@@ -434,6 +466,10 @@ def clause_f(repo, chk):
                 covered.add(cname)
         ok = covered == cfit_classes and not body_has_bg
         why = "isinstance(..., %s) covers %s of %s" % (names, sorted(covered), sorted(cfit_classes))
+    else:
+        recognised = False
+    if not recognised:
+        raise AnalysisError("get_fcn: the predicate `%s` that decides whether bg= is passed is neither the configured model name test nor an isinstance test" % txt)
     chk.instance("F-cfit", "get_fcn drops bg under `%s`; _get_model builds %s in its cfit branch: %s" % (txt, sorted(cfit_classes), ok))
     if not ok:
         chk.violation("F-cfit", gf.key, "predicate", "the FCN factory decides with `%s` whether the side-band sample is merged into the data, but the model factory builds %s for `model: cfit` (%s): for a class the predicate misses, side-band events with negative weights enter the cfit likelihood" % (txt, sorted(cfit_classes), why), file=LOADER, line=st.lineno)
